@@ -105,7 +105,9 @@ def run_history(res, ctx, root, rng, hidx, max_steps, con):
     elif start == "handwritten":
         # a header a person wrote, in the file's own comment style: compact and spaced year ranges, mixed prefixes
         hw = [rng.choice(["SPDX-FileCopyrightText: 2015-2017 Hand Writer", "Copyright (C) 2012-2014 Hand Writer", "SPDX-FileCopyrightText: 2011 -2013 Hand Writer",
-                          "SPDX-FileCopyrightText: 2009 - 2010 Hand Writer", "Copyright 2016- 2018 Hand Writer"]),
+                          "SPDX-FileCopyrightText: 2009 - 2010 Hand Writer", "Copyright 2016- 2018 Hand Writer",
+                          # a list of years is part of the statement as far as the tool is concerned: kept as typed
+                          "SPDX-FileCopyrightText: 2016, 2018 Hand Writer", "Copyright (C) 2009, 2011-2013 Hand Writer"]),
               rng.choice(["SPDX-FileCopyrightText: 2003-2005 Mary Sue <mary@example.com>", "© 2001 Mary Sue <mary@example.com>"]),
               "", "SPDX-License-Identifier: Zlib", "SPDX-FileContributor: Hand Contributor"]
         stt = styles[t["short"]]
